@@ -212,7 +212,27 @@ def gate_lines(channel_cls):
     return out
 
 
-def lean_tables(sites, notifies, accesses=None):
+def addressing_counts(channel_cls):
+    """(#calls add_int(self.chanid), #calls add_int(self.remote_chanid)) in class Channel: channel messages must
+    name the peer's id"""
+    tree = ast.parse(textwrap.dedent(inspect.getsource(channel_cls)))
+    own = remote = 0
+    for n in ast.walk(tree):
+        if isinstance(n, ast.Call) and isinstance(n.func, ast.Attribute) and n.func.attr == "add_int" and n.args:
+            if _is_self_attr(n.args[0], "chanid"):
+                own += 1
+            elif _is_self_attr(n.args[0], "remote_chanid"):
+                remote += 1
+    return own, remote
+
+
+def lean_tables_for(channel_cls):
+    """the whole generated file PV/Generated/ChanLock.lean for this source tree (same content whoever writes it)"""
+    sites, notifies = channel_tables(channel_cls)
+    return lean_tables(sites, notifies, window_accesses(channel_cls), addressing_counts(channel_cls))
+
+
+def lean_tables(sites, notifies, accesses=None, addr=None):
     def b(x):
         return "true" if x else "false"
     out = ["/- GENERATED from the AST of paramiko/channel.py (class Channel) by pv/lib_chanlock.py — do not edit. -/",
@@ -243,5 +263,9 @@ def lean_tables(sites, notifies, accesses=None):
                 "def windowAccesses : List (String × Bool × Bool) := ["]
         out.append(",\n".join('  ("%s", %s, %s)' % (f, b(k == "write"), b(l)) for f, k, l in accesses))
         out += ["]", ""]
+    if addr is not None:
+        out += ["/-- calls `add_int(self.chanid)` / `add_int(self.remote_chanid)` in class Channel -/",
+                "def ownIdInMessages : Nat := %d" % addr[0],
+                "def remoteIdInMessages : Nat := %d" % addr[1], ""]
     out += ["end PV.Generated.ChanLock", ""]
     return "\n".join(out)
